@@ -127,6 +127,9 @@ def layer_a_mask_units(quick: bool) -> List[Tuple[str, List[Dict[str, Any]]]]:
                         # condensed masks is outside the reference's envelope (DontCare)
                         progs.append(one_value_program(pid + "_c", {"dct": std(base, n, None, order, mask=mask, condensed=True)}, None, None,
                                                        vals[:4], ("mask-condensed", base, f"n{n}")))
+                        # IS-CONDENSED="false" spelled out means the same as leaving the attribute out
+                        progs.append(one_value_program(pid + "_cf", {"dct": std(base, n, None, order, mask=mask, condensed=False)}, None, None,
+                                                       vals[:4], ("mask", base, f"n{n}")))
     return [("A/mask", progs)]
 
 
@@ -398,6 +401,10 @@ def library() -> List[Dict[str, Any]]:
         {"kind": "emfield", "name": "EMD", "of": "S_dyn", "end_dop": "u8", "term": "255"},
         {"kind": "mux", "name": "MUXD", "byte": 1, "key": {"byte": 0, "dop": "u8"},
          "cases": [{"name": "c0", "lo": 1, "hi": 1, "struct": "S_dyn"}, {"name": "c1", "lo": 2, "hi": 2, "struct": "S_item"}]},
+        {"kind": "mux", "name": "MUXo", "byte": 1, "key": {"byte": 0, "dop": "u8"},  # a case with an OPEN lower limit
+         "cases": [{"name": "c0", "lo": 1, "hi": 1, "struct": "S_item"}, {"name": "high", "lo": {"v": 10, "type": "OPEN"}, "hi": 20, "struct": "S_one"}]},
+        {"kind": "struct", "name": "S_tk", "params": [P("TABLE-KEY", "tk", table="T", id="L.TK.S_tk"), P("TABLE-STRUCT", "ts", key="tk", key_id="L.TK.S_tk")]},
+        {"name": "b8", "dct": std("A_BYTEFIELD", 64)},
         {"kind": "struct", "name": "S_lead", "params": [P("VALUE", "v", dop="lead8")]},
         {"kind": "sfield", "name": "SFV", "of": "S_lead", "n": 2, "item_size": 3},  # static field of variable-length items
         {"name": "linlim", "dct": U8, "phys": "A_UINT32", "cm": {"cat": "LINEAR", "i2p": [{"lo": 0, "hi": 200, "num": [0, 1], "den": [1]}]}},
@@ -422,6 +429,9 @@ def library() -> List[Dict[str, Any]]:
         {"kind": "table", "name": "T", "key_dop": "u8",
          "rows": [{"name": "r1", "key": 1, "struct": "S_item"}, {"name": "r2", "key": 2, "dop": "u16"}, {"name": "r3", "key": 3, "struct": "S_flat"}]},
         {"kind": "dtcdop", "name": "dtc3", "dct": std("A_UINT32", 24), "dtcs": [{"name": "P0001", "code": 1}, {"name": "P1234", "code": 0x123456}]},
+        {"kind": "dtcdop", "name": "dtc3b", "dct": std("A_UINT32", 24), "dtcs": [{"name": "B0001", "code": 0x0B0001}, {"name": "B0002", "code": 0x0B0002}]},
+        {"kind": "dtcdop", "name": "dtc3l", "dct": std("A_UINT32", 24), "dtcs": [{"name": "L0001", "code": 0x0C0001}],
+         "linked": [{"dop": "dtc3b", "not_inherited": ["B0002"]}]},  # inherits B0001 from dtc3b
         {"kind": "envdata", "name": "env_all", "all": True, "params": [P("VALUE", "e_all", dop="u8")]},
         {"kind": "envdata", "name": "env_spec", "dtcs": [0x123456], "params": [P("VALUE", "e_spec", dop="u16")]},
     ]
@@ -451,7 +461,7 @@ def templates() -> Dict[str, Any]:
     reg("V8", 1, lambda i: [{f"v{i}": 0}, {f"v{i}": 1}, {f"v{i}": 255}], lambda i: [P("VALUE", f"v{i}", dop="u8")])
     reg("V12b", 2, lambda i: [{f"w{i}": 0}, {f"w{i}": 0xABC}, {f"w{i}": 0xFFF}], lambda i: [P("VALUE", f"w{i}", dop="u12", bit=3)])
     reg("VLIN", 1, lambda i: [{f"l{i}": 1}, {f"l{i}": -255}, {f"l{i}": 255}], lambda i: [P("VALUE", f"l{i}", dop="i8lin")])
-    reg("VDEF", 1, lambda i: [{}, {f"d{i}": 9}], lambda i: [P("VALUE", f"d{i}", dop="u8", default=7)])
+    reg("VDEF", 1, lambda i: [{}, {f"d{i}": 9}, {f"d{i}": 0}], lambda i: [P("VALUE", f"d{i}", dop="u8", default=7)])
     reg("VTT", 1, lambda i: [{f"t{i}": "off"}, {f"t{i}": "auto"}], lambda i: [P("VALUE", f"t{i}", dop="tt")])
     reg("RES8", 1, lambda i: [{}], lambda i: [P("RESERVED", f"r{i}", bits=8)])
     reg("RES72", 9, lambda i: [{}], lambda i: [P("RESERVED", f"rw{i}", bits=72)])  # wider than any integer the bit packer extracts in one piece
@@ -460,10 +470,20 @@ def templates() -> Dict[str, Any]:
     reg("VF32", 4, lambda i: [{f"vf{i}": 1.5}, {f"vf{i}": 100.0}, {f"vf{i}": 0.0}], lambda i: [P("VALUE", f"vf{i}", dop="f32lim")])
     reg("SLK", None, lambda i: [{f"slk{i}": {"v": b"\x01\x02"}}, {f"slk{i}": {"v": b""}}, {f"slk{i}": {"v": b"\x07", "lk": 8}}], lambda i: [P("VALUE", f"slk{i}", dop="S_lk")])
     reg("SYS", 1, lambda i: [{f"s{i}": 30}, {f"s{i}": 0}], lambda i: [P("SYSTEM", f"s{i}", dop="u8", sysparam="SECOND")])
+    # every predefined SYSPARAM kind: none is required, so each must be omittable (the value then comes from the clock / user)
+    for kind, dopn, size, val in (("TIMESTAMP", "b8", 8, b"\x00\x00\x01\x02\x03\x04\x05\x06"), ("MINUTE", "u8", 1, 59), ("HOUR", "u8", 1, 23), ("TIMEZONE", "u16", 2, 120),
+                                  ("DAY", "u8", 1, 31), ("WEEK", "u8", 1, 53), ("MONTH", "u8", 1, 12), ("YEAR", "u16", 2, 2026), ("CENTURY", "u8", 1, 20),
+                                  ("TESTERID", "b8", 8, b"odxtools"), ("USERID", "lead8", None, b"me")):
+        reg({"TIMESTAMP": "SYTS", "TIMEZONE": "SYTZ"}.get(kind, "SY" + kind[:4]), size, (lambda kind, val: lambda i: [{f"y{kind[:3].lower()}{i}": val}])(kind, val),
+            (lambda kind, dopn: lambda i: [P("SYSTEM", f"y{kind[:3].lower()}{i}", dop=dopn, sysparam=kind)])(kind, dopn))
     reg("LK", None, lambda i: [{f"lv{i}": b""}, {f"lv{i}": b"\x01\x02"}, {f"lv{i}": b"\x09", f"lk{i}": 8}],
         lambda i: [P("LENGTH-KEY", f"lk{i}", dop="u8", id=f"L.LK.@PID@.{i}"), P("VALUE", f"lv{i}", dop=f"@PLEN@{i}")])
     reg("LKSAME", None, lambda i: [{f"in{i}": {"v": b"\x01"}, f"ov{i}": b"\x02\x03"}, {f"in{i}": {"v": b""}, f"ov{i}": b"\x07"}, {f"in{i}": {"v": b"\x01\x02"}, f"ov{i}": b""}],
         lambda i: [P("LENGTH-KEY", "lk", dop="u8", id=f"L.LK.@PID@.{i}"), P("VALUE", f"in{i}", dop="S_lk"), P("VALUE", f"ov{i}", dop=f"@PLENSAME@{i}")])
+    reg("MUXo", None, lambda i: [{f"mo{i}": ("c0", _item(1, 2))}, {f"mo{i}": ("high", {"a": 4})}, {f"mo{i}": (15, {"a": 4})}], lambda i: [P("VALUE", f"mo{i}", dop="MUXo")])
+    reg("TKSAME", None, lambda i: [{f"tin{i}": {"ts": ("r2", 0x1234)}, f"tout{i}": ("r1", _item(1, 2))}, {f"tin{i}": {"ts": ("r1", _item(3, 4))}, f"tout{i}": ("r2", 7)},
+                                   {f"tin{i}": {"ts": ("r3", {"a": 9, "b": 0xBEEF})}, f"tout{i}": ("r3", {"a": 1, "b": 2})}],
+        lambda i: [P("TABLE-KEY", "tk", table="T", id=f"L.TK.@PID@.{i}"), P("VALUE", f"tin{i}", dop="S_tk"), P("TABLE-STRUCT", f"tout{i}", key="tk", key_id=f"L.TK.@PID@.{i}")])
     reg("TKS", None, lambda i: [{f"ts{i}": ("r1", _item(1, 2))}, {f"ts{i}": ("r2", 0x1234)}, {f"ts{i}": ("r3", {"a": 9, "b": 0xBEEF}), f"tk{i}": "r3"}],
         lambda i: [P("TABLE-KEY", f"tk{i}", table="T", id=f"L.TK.@PID@.{i}"), P("TABLE-STRUCT", f"ts{i}", key=f"tk{i}", key_id=f"L.TK.@PID@.{i}")])
     reg("TKSROW", None, lambda i: [{f"tsr{i}": ("r2", 0x1234)}],
@@ -506,6 +526,7 @@ def templates() -> Dict[str, Any]:
     reg("SKB4", None, lambda i: [{f"kc{i}": {"v": b"\x01\x02"}}, {f"kc{i}": {"v": b""}}], lambda i: [P("VALUE", f"kc{i}", dop="S_kb4")])
     reg("VLDEF", 1, lambda i: [{f"vd{i}": 0}, {f"vd{i}": 200}], lambda i: [P("VALUE", f"vd{i}", dop="lindef")])
     reg("DTC", 3, lambda i: [{f"dt{i}": 0x123456}, {f"dt{i}": "P0001"}], lambda i: [P("VALUE", f"dt{i}", dop="dtc3")])
+    reg("DTCL", 3, lambda i: [{f"dl{i}": 0x0C0001}, {f"dl{i}": 0x0B0001}, {f"dl{i}": "B0001"}], lambda i: [P("VALUE", f"dl{i}", dop="dtc3l")])
     reg("DTCENV", None, lambda i: [{f"dtc{i}": 1, f"env{i}": {"e_all": 5}}, {f"dtc{i}": 0x123456, f"env{i}": {"e_all": 5, "e_spec": 0x1234}}],
         lambda i: [P("VALUE", f"dtc{i}", dop="dtc3"), P("VALUE", f"env{i}", dop=f"@ENV@{i}")])
     reg("BZ", None, lambda i: [{f"bz{i}": b""}, {f"bz{i}": b"\x41"}, {f"bz{i}": b"\x41\x42\x43"}], lambda i: [P("VALUE", f"bz{i}", dop="bz")])
@@ -530,7 +551,8 @@ def templates() -> Dict[str, Any]:
 
 
 SIGMA_FULL = ["CC8", "CC16L", "CCNIB", "PC", "V8", "V12b", "V8b4", "VF32", "SLK", "VLIN", "VDEF", "VTT", "RES8", "RES4", "SYS", "LK", "TKS", "TKSROW", "SFLAT",
-              "SSUB", "SNEST", "SSIZED", "SF2", "SF2p", "DL1", "DL2", "EOP", "EMLAST", "EMCC", "MUXd", "MUXn", "MUXe", "MUXf", "SDYN", "EOPD", "DLD", "EMD", "MUXD", "EOPDE", "EOPLK", "SKB2", "SKB4", "VLDEF", "DTC", "DTCENV", "BZ", "BEOP", "LEAD", "SFV", "EMT", "EMTC", "TKS2", "CCMM", "LKSAME", "RES72"]
+              "SSUB", "SNEST", "SSIZED", "SF2", "SF2p", "DL1", "DL2", "EOP", "EMLAST", "EMCC", "MUXd", "MUXn", "MUXe", "MUXf", "SDYN", "EOPD", "DLD", "EMD", "MUXD", "EOPDE", "EOPLK", "SKB2", "SKB4", "VLDEF", "DTC", "DTCENV", "BZ", "BEOP", "LEAD", "SFV", "EMT", "EMTC", "TKS2", "CCMM", "LKSAME", "RES72", "MUXo", "TKSAME", "DTCL"]
+SIGMA_SYS = ["SYTS", "SYMINU", "SYHOUR", "SYTZ", "SYDAY", "SYWEEK", "SYMONT", "SYYEAR", "SYCENT", "SYTEST", "SYUSER"]
 SIGMA_3 = ["CC8", "V8", "V12b", "V8b4", "VDEF", "RES8", "LK", "TKS", "SFLAT", "SSIZED", "SF2p", "DL1", "EOP", "MUXd", "DTCENV", "BZ", "SDYN", "EOPD"]
 SIGMA_4 = ["CC8", "V12b", "SSIZED", "DL1", "MUXd", "BZ"]
 MODES = ["auto", "at", "hole"]
@@ -545,7 +567,7 @@ def build_program(seq: List[Tuple[str, str]], kind: str = "REQUEST", request: Op
                   max_assign: int = 48) -> Optional[Dict[str, Any]]:
     """seq: list of (template name, mode). Returns None if the sequence is ill-formed by the REFERENCE rules."""
     T = templates()
-    if [t for t, _ in seq].count("LKSAME") > 1:
+    if [t for t, _ in seq].count("LKSAME") > 1 or [t for t, _ in seq].count("TKSAME") > 1:
         return None  # its outer key has a fixed short name: twice in one message would be a duplicate name
     ml = {"auto": "a", "at": "e", "hole": "h", "overlap": "o", "far": "f", "zero": "z"}
     pid = ("q" if kind == "REQUEST" else "p") + "_" + "_".join(f"{t}{ml[m]}" for t, m in seq)
@@ -681,6 +703,9 @@ def layer_c_programs(quick: bool, overlap: bool = False) -> List[Dict[str, Any]]
         if not templates_static_last_only(t):
             add([("V8", "far"), (t, "zero"), ("V8", "auto")])
             add([("CC8", "far"), (t, "zero"), ("V12b", "auto")])
+    for t in SIGMA_SYS:
+        add([(t, "auto")])
+        add([("CC8", "auto"), (t, "auto")])
     # responses
     rq = bytes([0x22, 0xF1, 0x90])
     for body in (["V8"], ["SFLAT"], ["MUXd"], ["DL1"], ["BZ"], ["V8", "EOP"]):
